@@ -53,6 +53,8 @@ struct Rep {
     algs: Vec<u16>,
     /// realm of the challenge in force (long-term)
     realm: &'static str,
+    /// the challenge in force sets the user-name anonymity bit: USERHASH instead of USERNAME
+    anon: bool,
 }
 
 fn reps(fingerprint: bool, reliable: bool) -> Vec<Rep> {
@@ -70,14 +72,14 @@ fn reps_for(fingerprint: bool, reliable: bool, cred: u8) -> Vec<Rep> {
     let d = |i: usize, r: Reply| Event::Deliver { to: Target::Req(i), reply: r };
     let s = Event::Send { app: 0 };
     let cookie = NonceKind::Cookie(true, true, 1);
-    vec![
-        Rep { name: "no-mechanism", cfg: cfg(Mech::None), prefix: vec![], nonce: None, algs: vec![], realm: REALM },
-        Rep { name: "short-term/unlearned", cfg: cfg(Mech::ShortTerm(None)), prefix: vec![], nonce: None, algs: vec![], realm: REALM },
-        Rep { name: "short-term/learned-MI", cfg: cfg(Mech::ShortTerm(None)), prefix: vec![s.clone(), d(0, ok(RMac::Mi))], nonce: None, algs: vec![], realm: REALM },
-        Rep { name: "short-term/learned-SHA256", cfg: cfg(Mech::ShortTerm(None)), prefix: vec![s.clone(), d(0, ok(RMac::Sha))], nonce: None, algs: vec![], realm: REALM },
-        Rep { name: "short-term/configured-MI", cfg: cfg(Mech::ShortTerm(Some(false))), prefix: vec![], nonce: None, algs: vec![], realm: REALM },
-        Rep { name: "short-term/configured-SHA256", cfg: cfg(Mech::ShortTerm(Some(true))), prefix: vec![], nonce: None, algs: vec![], realm: REALM },
-        Rep { name: "long-term/first-request", cfg: cfg(Mech::LongTerm), prefix: vec![], nonce: None, algs: vec![], realm: REALM },
+    let mut v = vec![
+        Rep { name: "no-mechanism", cfg: cfg(Mech::None), prefix: vec![], nonce: None, algs: vec![], realm: REALM, anon: false },
+        Rep { name: "short-term/unlearned", cfg: cfg(Mech::ShortTerm(None)), prefix: vec![], nonce: None, algs: vec![], realm: REALM, anon: false },
+        Rep { name: "short-term/learned-MI", cfg: cfg(Mech::ShortTerm(None)), prefix: vec![s.clone(), d(0, ok(RMac::Mi))], nonce: None, algs: vec![], realm: REALM, anon: false },
+        Rep { name: "short-term/learned-SHA256", cfg: cfg(Mech::ShortTerm(None)), prefix: vec![s.clone(), d(0, ok(RMac::Sha))], nonce: None, algs: vec![], realm: REALM, anon: false },
+        Rep { name: "short-term/configured-MI", cfg: cfg(Mech::ShortTerm(Some(false))), prefix: vec![], nonce: None, algs: vec![], realm: REALM, anon: false },
+        Rep { name: "short-term/configured-SHA256", cfg: cfg(Mech::ShortTerm(Some(true))), prefix: vec![], nonce: None, algs: vec![], realm: REALM, anon: false },
+        Rep { name: "long-term/first-request", cfg: cfg(Mech::LongTerm), prefix: vec![], nonce: None, algs: vec![], realm: REALM, anon: false },
         Rep {
             name: "long-term/retry-after-401-plain",
             cfg: cfg(Mech::LongTerm),
@@ -85,6 +87,7 @@ fn reps_for(fingerprint: bool, reliable: bool, cred: u8) -> Vec<Rep> {
             nonce: super::server::nonce_string(NonceKind::Plain(1)),
             algs: vec![1],
             realm: REALM,
+            anon: false,
         },
         Rep {
             name: "long-term/retry-after-401-cookie",
@@ -93,6 +96,7 @@ fn reps_for(fingerprint: bool, reliable: bool, cred: u8) -> Vec<Rep> {
             nonce: super::server::nonce_string(cookie),
             algs: vec![1, 2],
             realm: REALM,
+            anon: false,
         },
         Rep {
             name: "long-term/subsequent-MD5",
@@ -101,6 +105,7 @@ fn reps_for(fingerprint: bool, reliable: bool, cred: u8) -> Vec<Rep> {
             nonce: super::server::nonce_string(NonceKind::Plain(1)),
             algs: vec![1],
             realm: REALM,
+            anon: false,
         },
         Rep {
             name: "long-term/subsequent-SHA256",
@@ -109,6 +114,7 @@ fn reps_for(fingerprint: bool, reliable: bool, cred: u8) -> Vec<Rep> {
             nonce: super::server::nonce_string(cookie),
             algs: vec![1, 2],
             realm: REALM,
+            anon: false,
         },
         Rep {
             name: "long-term/retry-after-438",
@@ -124,6 +130,16 @@ fn reps_for(fingerprint: bool, reliable: bool, cred: u8) -> Vec<Rep> {
             nonce: super::server::nonce_string(NonceKind::Cookie(true, true, 5)),
             algs: vec![1, 2],
             realm: REALM,
+            anon: false,
+        },
+        Rep {
+            name: "long-term/retry-after-401-cookie-with-unassigned-feature-bits",
+            cfg: cfg(Mech::LongTerm),
+            prefix: vec![s.clone(), d(0, c401(NonceKind::CookieX(true, true, 3), PasKind::Md5Sha256))],
+            nonce: super::server::nonce_string(NonceKind::CookieX(true, true, 3)),
+            algs: vec![1, 2],
+            realm: REALM,
+            anon: false,
         },
         // a second challenge naming the realm in another letter case / another realm: everything derived from the
         // realm (key, USERHASH) must follow the realm the packet carries
@@ -134,6 +150,7 @@ fn reps_for(fingerprint: bool, reliable: bool, cred: u8) -> Vec<Rep> {
             nonce: super::server::nonce_string(NonceKind::Cookie(true, true, 6)),
             algs: vec![1, 2],
             realm: super::server::realm_name(1),
+            anon: false,
         },
         Rep {
             name: "long-term/subsequent-after-second-401-other-realm",
@@ -142,8 +159,28 @@ fn reps_for(fingerprint: bool, reliable: bool, cred: u8) -> Vec<Rep> {
             nonce: super::server::nonce_string(NonceKind::Plain(7)),
             algs: vec![1],
             realm: super::server::realm_name(2),
+            anon: false,
         },
-    ]
+    ];
+    // the anonymity bit of the cookie nonce in force decides between USERNAME and USERHASH
+    for r in v.iter_mut() {
+        r.anon = r.nonce.as_deref().map(cookie_anonymity_bit).unwrap_or(false);
+    }
+    v
+}
+
+/// second feature bit (user-name anonymity) of an RFC 8489 nonce cookie, by an own base64 reading of its four flag characters
+fn cookie_anonymity_bit(nonce: &str) -> bool {
+    const T: &[u8; 64] = b"ABCDEFGHIJKLMNOPQRSTUVWXYZabcdefghijklmnopqrstuvwxyz0123456789+/";
+    let Some(rest) = nonce.strip_prefix("obMatJos2") else { return false };
+    let c = rest.as_bytes();
+    if c.len() < 4 {
+        return false;
+    }
+    match T.iter().position(|x| *x == c[0]) {
+        Some(v) => (v as u8) & 0x10 != 0, // first sextet = bits 23..18: anonymity is bit 22
+        None => false,
+    }
 }
 
 /// (name, configuration, history reaching the state) for other properties that need credential-state representatives
@@ -227,6 +264,17 @@ fn check_packet(rep_: &Rep, app: &[L], bytes: &[u8], class: u8, method: u16, ear
             _ => {}
         }
         k += 1;
+    }
+    // long-term: once a challenge is in force the user is named by USERHASH iff the cookie asked for anonymity
+    if matches!(rep_.cfg.mech, Mech::LongTerm) && rep_.nonce.is_some() {
+        let cred: Vec<u16> = p.tlvs[expected_app.len()..k].iter().map(|t| t.ty).collect();
+        let (has_name, has_hash) = (cred.contains(&codec::T_USERNAME), cred.contains(&codec::T_USERHASH));
+        if rep_.anon && (!has_hash || has_name) {
+            return Err(("anonymity-requested-but-user-not-named-by-USERHASH-only".into(), format!("{:04x?}", cred)));
+        }
+        if !rep_.anon && (has_hash || !has_name) {
+            return Err(("no-anonymity-requested-but-user-not-named-by-USERNAME-only".into(), format!("{:04x?}", cred)));
+        }
     }
     // (4) then at most one MI, one SHA256, one FINGERPRINT, in that order, as the final attributes
     let tail: Vec<u16> = p.tlvs[k..].iter().map(|t| t.ty).collect();
@@ -430,7 +478,7 @@ pub fn run(ctx: &RunCtx) -> i32 {
         rep,
         Finish {
             level: "model_checking",
-            rule: format!("{} application attribute lists (every sequence of length <= {} over a 12-entry alphabet: two SOFTWARE values, PRIORITY, and pre-populated USERNAME / REALM / NONCE / USERHASH / PASSWORD-ALGORITHM / PASSWORD-ALGORITHMS / MESSAGE-INTEGRITY / MESSAGE-INTEGRITY-SHA256 / FINGERPRINT) x {} credential-state representatives (14 states reached by replaying short histories on the real client: no mechanism; short-term unlearned / learned MI / learned SHA256 / configured MI / SHA256; long-term first request / retry after plain 401 / retry after cookie 401 with anonymity and algorithms / subsequent MD5 / subsequent SHA256 / retry after 438 / retry after a second 401 naming the realm in another letter case / subsequent request after a second 401 for another realm; each x fingerprint on/off x both transports; the credential states again with a 70-byte user name / 129-byte password and with a non-ASCII user name / a password that OpaqueString enforcement rewrites) x {{request, indication}} (methods 0x003 and 0xFFF on a subset in the quick tier); every emitted packet is parsed by the independent TLV reader: class / method / fresh id, application attributes first (one per type, first-insertion position, last value), then only the mechanism's credential attributes with the client's (not the application's) values, then at most one MI, SHA256, FINGERPRINT in that order, each verifying under the configured credentials by independent HMAC / CRC, no type twice, FINGERPRINT last when configured; retransmissions along timer runs are byte-identical; clients built with the optional builder calls in each of the six orders (limits 1 and 10) behave alike in every credential state", n_lists, max_len, n_reps),
+            rule: format!("{} application attribute lists (every sequence of length <= {} over a 12-entry alphabet: two SOFTWARE values, PRIORITY, and pre-populated USERNAME / REALM / NONCE / USERHASH / PASSWORD-ALGORITHM / PASSWORD-ALGORITHMS / MESSAGE-INTEGRITY / MESSAGE-INTEGRITY-SHA256 / FINGERPRINT) x {} credential-state representatives (15 states reached by replaying short histories on the real client: no mechanism; short-term unlearned / learned MI / learned SHA256 / configured MI / SHA256; long-term first request / retry after plain 401 / retry after cookie 401 with anonymity and algorithms / the same with unassigned feature bits set in the cookie / subsequent MD5 / subsequent SHA256 / retry after 438 / retry after a second 401 naming the realm in another letter case / subsequent request after a second 401 for another realm; each x fingerprint on/off x both transports; the credential states again with a 70-byte user name / 129-byte password and with a non-ASCII user name / a password that OpaqueString enforcement rewrites) x {{request, indication}} (methods 0x003 and 0xFFF on a subset in the quick tier); every emitted packet is parsed by the independent TLV reader: class / method / fresh id, application attributes first (one per type, first-insertion position, last value), then only the mechanism's credential attributes with the client's (not the application's) values, then at most one MI, SHA256, FINGERPRINT in that order, each verifying under the configured credentials by independent HMAC / CRC, no type twice, FINGERPRINT last when configured; retransmissions along timer runs are byte-identical; clients built with the optional builder calls in each of the six orders (limits 1 and 10) behave alike in every credential state", n_lists, max_len, n_reps),
             assumptions: vec!["which credential attributes each long-term state requires is C08's question; C13 checks form, replacement and verification".into()],
             required_symbols: vec!["no-mechanism", "short-term/unlearned", "short-term/learned-SHA256", "long-term/first-request", "long-term/retry-after-401-cookie", "long-term/subsequent-SHA256", "long-term/retry-after-438", "long-term-indication-refused", "retransmission-identical", "client-builder-routes"],
             min_outcomes: 12,
